@@ -1146,7 +1146,8 @@ func (r *Raft) restoreUserSnapshot(meta *SnapshotMeta, reader io.Reader) error {
 	// the index so we know there's nothing in the Raft log there and
 	// replication will fault and send the snapshot.
 	term := r.getCurrentTerm()
-	lastIndex := r.getLastIndex()
+	prevLastIndex := r.getLastIndex()
+	lastIndex := prevLastIndex
 	if meta.Index > lastIndex {
 		lastIndex = meta.Index
 	}
@@ -1205,6 +1206,14 @@ func (r *Raft) restoreUserSnapshot(meta *SnapshotMeta, reader io.Reader) error {
 	if logs, ok := r.logs.(MonotonicLogStore); ok && logs.IsMonotonic() {
 		if err := r.removeOldLogs(); err != nil {
 			r.logger.Error("failed to remove old logs", "error", err)
+		}
+	} else if commitIndex := r.getCommitIndex(); prevLastIndex > commitIndex {
+		// The entries above the commit index are the ones whose futures were
+		// aborted above. Replication still reads the old logs for a lagging
+		// follower, and stamps what it sends with a commit index beyond the
+		// restored snapshot: drop them so they are never applied anywhere.
+		if err := r.logs.DeleteRange(commitIndex+1, prevLastIndex); err != nil {
+			r.logger.Error("failed to remove aborted logs", "error", err)
 		}
 	}
 
